@@ -1,4 +1,5 @@
 import AcraModel.AuditLog.ChainLemmas
+import AcraModel.AuditLog.ChainAlter
 import AcraModel.AuditLog.ParseLemmas
 import AcraModel.Crypto.Box
 /-!
@@ -191,16 +192,14 @@ theorem render_parse_split2_counterexample :
 
 /-! ## alterations are detected -/
 
-/-- the honest entry for data `d` written in calculator state `st` -/
-def entryAt (c : CryptoOps) (st : Calc) (d : Bytes) (isEnd : Bool) : Entry :=
-  ⟨d, tagOf c st d, st.prev.isNone, isEnd⟩
-
-/-- collision freedom on the two values at hand: the HMAC values of calculator states `a`, `b` on
-data `x`, `y` do not collide under SHA-256, and the two HMAC inputs do not collide under HMAC -/
-structure NoCollision (c : CryptoOps) (a : Calc) (x : Bytes) (b : Calc) (y : Bytes) : Prop where
-  sha : c.sha256 (a.ic c x) = c.sha256 (b.ic c y) → a.ic c x = b.ic c y
-  mac : c.hmac a.key (x ++ a.prev.getD []) = c.hmac b.key (y ++ b.prev.getD []) →
-    a.key = b.key ∧ x ++ a.prev.getD [] = y ++ b.prev.getD []
+/-! `entryAt c st d isEnd` (the honest entry for data `d` written in calculator state `st`) and
+`NoCollision c a x b y` (collision freedom on the two values at hand: the HMAC values of calculator states
+`a`, `b` on data `x`, `y` do not collide under SHA-256, and the two HMAC inputs do not collide under HMAC)
+are defined in `AuditLog/ChainAlter.lean`, together with `honestLines c key items` (the log of an honest
+history), `pstate c key items` (the producer's calculator after it) and `vcal c key items` (the
+calculator the *verifier* holds after it: the producer's when mid-chain – `vcal_of_mid` –, the fresh
+one at the start of the log – `vcal_nil` –, and after the last entry of a chain that chain's calculator
+one step on – `vcal_snoc` –, because the verifier restarts only when it sees `chain=new`). -/
 
 /-- **Tamper, general form.** After any honest prefix (with restarts), a line that is not marked as a
 chain start and whose tag was made in calculator state `st'` for data `d'` is rejected at its position
@@ -226,30 +225,65 @@ theorem foreign_entry_detected (c : CryptoOps) (key : Bytes) (pre : List PItem) 
     (by rw [hcal]; exact hnc.sha) (by rw [hcal]; exact hnc.mac) (by rw [hcal]; exact hdiff)
   rw [this]
 
-/-- **A single-entry edit is detected at the edited entry**: same tag and markers, other content. -/
-theorem edit_detected (c : CryptoOps) (key : Bytes) (pre : List PItem) (a : PItem) (d' : Bytes) (rest : List Line)
+/-- **Tamper, general form at EVERY position** (first entry of the log, first or last entry of a later
+chain, mid-chain). After any honest history `pre` (with restarts) a line that is not marked as a chain
+start and whose tag was made in calculator state `st'` for data `d'` is rejected at its position whenever
+the calculator the verifier holds there (`vcal`) differs from `st'` in the key or in the HMAC input –
+given no collision on the two values at hand. -/
+theorem foreign_entry_detected_at (c : CryptoOps) (key : Bytes) (pre : List PItem) (e : Entry) (rest : List Line)
+    (st' : Calc) (d' : Bytes)
     (hres : ∀ it ∈ pre, it.resetAfter = true → it.isEnd = true)
-    (hmid : (stateAfter c key (Calc.new c key) pre).prev.isSome)
+    (hnew : e.isNew = false) (htag : e.tag = tagOf c st' d')
+    (hnc : NoCollision c (vcal c key pre) e.data st' d')
+    (hdiff : (vcal c key pre).key ≠ st'.key ∨ e.data ++ (vcal c key pre).prev.getD [] ≠ d' ++ st'.prev.getD []) :
+    verify c key (honestLines c key pre ++ Line.entry e :: rest) = .fail pre.length .mismatch := by
+  rw [verify_prefix_entry c key pre e rest hres,
+    entry_old_foreign c key (vstate c key pre) st' d' e hnew htag hnc hdiff]
+
+/-- **A single-entry edit is detected at the edited entry, at EVERY position**: same tag and chain-start
+marker, other content (the end-of-chain marker, which both text formats derive from the content, may
+change with it: `e'` is arbitrary). No exclusion: first and last entries of the log and of every chain
+are covered. -/
+theorem edit_detected (c : CryptoOps) (key : Bytes) (pre : List PItem) (a : PItem) (d' : Bytes) (e' : Bool) (rest : List Line)
+    (hres : ∀ it ∈ pre, it.resetAfter = true → it.isEnd = true)
     (hd : d' ≠ a.data)
-    (hnc : NoCollision c (stateAfter c key (Calc.new c key) pre) d' (stateAfter c key (Calc.new c key) pre) a.data) :
-    verify c key ((produce c key (Calc.new c key) pre).map Line.entry ++
-        Line.entry { entryAt c (stateAfter c key (Calc.new c key) pre) a.data a.isEnd with data := d' } :: rest) =
+    (hnc : NoCollision c (pstate c key pre) d' (pstate c key pre) a.data) :
+    verify c key (honestLines c key pre ++
+        Line.entry { entryAt c (pstate c key pre) a.data e' with data := d' } :: rest) =
       .fail pre.length .mismatch := by
-  apply foreign_entry_detected c key pre _ rest (stateAfter c key (Calc.new c key) pre) a.data hres hmid
-  · cases h : (stateAfter c key (Calc.new c key) pre).prev with
-    | none => rw [h] at hmid; cases hmid
-    | some _ => simp [entryAt, h]
+  rw [verify_prefix_entry c key pre _ rest hres,
+    entry_inStep_eval c key (pstate c key pre) (vstate c key pre) _ (vstate_inStep c key pre hres) rfl]
+  have hne : tagOf c (pstate c key pre) a.data ≠ tagOf c (pstate c key pre) d' := by
+    intro h
+    exact hd (List.append_cancel_right (hnc.tag_inj h.symm).2)
+  simp [entryAt, hne]
+
+/-- **Removing an entry that is followed by another entry of its chain is detected at that next entry,
+wherever the removed entry stands** (mid-chain, first entry of the log, first entry of a later chain).
+`a` is the removed entry, `b` the one that follows in the same chain. Hypothesis `hratchet`: the key the
+verifier holds at the position differs from the key `b`'s tag was made with (one ratchet step after `a`).
+Mid-chain and at the start of the log the verifier holds the producer's calculator, so this is
+`SHA256(k) ≠ k` for the key at hand (`delete_detected_mid`, `delete_first_of_log_detected`); for the first
+entry of a later chain the verifier still holds the previous chain's calculator one step on, so it reads
+`SHA256ⁿ⁺¹(key) ≠ SHA256²(key)` for a previous chain of `n` entries – true for a ratchet that does not
+cycle **unless `n = 1`**. Excluded therefore: the first entry of a chain that directly follows a
+single-entry chain (known finding `single-entry-chain-replay`, `delete_after_single_entry_chain_counterexample`).
+Removing the *last* entry of a chain: `delete_chain_end_detected`; of the log: `truncation_allowed`. -/
+theorem delete_detected (c : CryptoOps) (key : Bytes) (pre : List PItem) (a b : PItem) (rest : List Line)
+    (hres : ∀ it ∈ pre, it.resetAfter = true → it.isEnd = true)
+    (hratchet : (vcal c key pre).key ≠ c.sha256 (pstate c key pre).key)
+    (hnc : NoCollision c (vcal c key pre) b.data ((pstate c key pre).step c a.data).1 b.data) :
+    verify c key (honestLines c key pre ++
+        Line.entry (entryAt c ((pstate c key pre).step c a.data).1 b.data b.isEnd) :: rest) =
+      .fail pre.length .mismatch := by
+  apply foreign_entry_detected_at c key pre _ rest ((pstate c key pre).step c a.data).1 b.data hres
+  · simp [entryAt, Calc.step]
   · rfl
   · exact hnc
-  · right
-    intro h
-    exact hd (List.append_cancel_right h)
+  · left; simpa [Calc.step] using hratchet
 
-/-- **Removing an entry that is followed by another entry of its chain is detected at that next entry**
-(also: exchanging two neighbouring entries is detected at the first of them). `a` is the removed
-entry, `b` the one that follows; the only extra hypothesis is that the key ratchet moves (`SHA256(k) ≠ k`
-for the key at hand). -/
-theorem delete_detected (c : CryptoOps) (key : Bytes) (pre : List PItem) (a b : PItem) (rest : List Line)
+/-- `delete_detected` mid-chain, in the form it had before it was generalised -/
+theorem delete_detected_mid (c : CryptoOps) (key : Bytes) (pre : List PItem) (a b : PItem) (rest : List Line)
     (hres : ∀ it ∈ pre, it.resetAfter = true → it.isEnd = true)
     (hmid : (stateAfter c key (Calc.new c key) pre).prev.isSome)
     (hratchet : c.sha256 (stateAfter c key (Calc.new c key) pre).key ≠ (stateAfter c key (Calc.new c key) pre).key)
@@ -258,15 +292,61 @@ theorem delete_detected (c : CryptoOps) (key : Bytes) (pre : List PItem) (a b : 
     verify c key ((produce c key (Calc.new c key) pre).map Line.entry ++
         Line.entry (entryAt c ((stateAfter c key (Calc.new c key) pre).step c a.data).1 b.data b.isEnd) :: rest) =
       .fail pre.length .mismatch := by
-  apply foreign_entry_detected c key pre _ rest ((stateAfter c key (Calc.new c key) pre).step c a.data).1 b.data hres hmid
-  · simp [entryAt, Calc.step]
-  · rfl
-  · exact hnc
-  · left
-    simpa [Calc.step] using Ne.symm hratchet
+  have hv := vcal_of_mid c key pre hres hmid
+  exact delete_detected c key pre a b rest hres (by rw [hv]; exact Ne.symm hratchet) (by rw [hv]; exact hnc)
+
+/-- removing the very first entry of the log (followed by an entry of its chain) is detected at position 0 -/
+theorem delete_first_of_log_detected (c : CryptoOps) (key : Bytes) (a b : PItem) (rest : List Line)
+    (hratchet : c.sha256 (c.sha256 key) ≠ c.sha256 key)
+    (hnc : NoCollision c (Calc.new c key) b.data (((Calc.new c key)).step c a.data).1 b.data) :
+    verify c key (Line.entry (entryAt c ((Calc.new c key).step c a.data).1 b.data b.isEnd) :: rest) =
+      .fail 0 .mismatch :=
+  delete_detected c key [] a b rest (by intro it h; cases h) (by simpa [vcal_nil, pstate, stateAfter, Calc.new] using Ne.symm hratchet) hnc
+
+/-- **Removing the last entry of a chain of two or more entries is detected** at the next line, the first
+entry of the following chain (any entry marked `chain=new`): the verifier reports the missing
+end-of-chain, because the entry `z` before the removed one is not an end-of-chain entry. -/
+theorem delete_chain_end_detected (c : CryptoOps) (key : Bytes) (pre : List PItem) (z : PItem) (rest : List Line)
+    (e : Entry) (hres : ∀ it ∈ pre ++ [z], it.resetAfter = true → it.isEnd = true)
+    (hnew : e.isNew = true) (hz : z.isEnd = false) :
+    verify c key (honestLines c key (pre ++ [z]) ++ Line.entry e :: rest) = .fail (pre.length + 1) .missingEnd := by
+  rw [verify_prefix_entry c key (pre ++ [z]) e rest hres, entry_new c key _ e hnew, vlast_snoc, hz]
+  simp
+
+/-- **Known finding `single-entry-chain-replay`, deletion form (1).** A chain that consists of one entry
+(first and end-of-chain at once) can be removed as a whole: what remains is the honest log of the history
+without that entry. -/
+theorem delete_single_entry_chain_counterexample (c : CryptoOps) (key : Bytes) (pre post : List PItem) (a : PItem)
+    (hres : ∀ it ∈ pre ++ post, it.resetAfter = true → it.isEnd = true)
+    (hstart : pstate c key pre = Calc.new c key) (ha : a.resetAfter = true) :
+    -- the honest log of `pre ++ a :: post` with `a`'s line removed …
+    honestLines c key pre ++ (produce c key (pstate c key (pre ++ [a])) post).map Line.entry =
+      honestLines c key (pre ++ post) ∧
+    -- … verifies
+    verify c key (honestLines c key (pre ++ post)) = .ok := by
+  constructor
+  · rw [honestLines_append, pstate_snoc, hstart]
+    simp [nextCalc, ha]
+  · have hent : ∀ es : List Entry, entriesOf (es.map Line.entry) = es := by
+      intro es; induction es with
+      | nil => rfl
+      | cons e r ih => simp [entriesOf, ih]
+    exact honest_verifies c key (pre ++ post) _ hres
+      (by intro l hl; obtain ⟨e, _, rfl⟩ := List.mem_map.mp hl; simp) (hent _)
+
+/-- **Known finding `single-entry-chain-replay`, deletion form (2): the position excluded from
+`delete_detected`.** History: a single-entry chain with content `d`, then a chain whose first entry has
+the same content `d` and is followed by `b`. Removing that first entry is not detected: `b` verifies
+against the calculator the verifier still holds from the single-entry chain. For every key and every
+crypto instance. -/
+theorem delete_after_single_entry_chain_counterexample (c : CryptoOps) (key d db : Bytes) (eb : Bool) :
+    verify c key [.entry (entryAt c (Calc.new c key) d true),
+                  .entry (entryAt c ((Calc.new c key).step c d).1 db eb)] = .ok := by
+  simp [verify, verifyFrom, VState.entry, VState.init, entryAt, Calc.new, Calc.step, tagOf, Calc.ic]
 
 /-- **Exchanging two neighbouring entries is detected at the first of them** (the line that now comes
-first carries a tag made one ratchet step later). -/
+first carries a tag made one ratchet step later). Mid-chain form; `swap_detected` covers every pair of
+positions of a chain. -/
 theorem swap_adjacent_detected (c : CryptoOps) (key : Bytes) (pre : List PItem) (a b : PItem) (rest : List Line)
     (hres : ∀ it ∈ pre, it.resetAfter = true → it.isEnd = true)
     (hmid : (stateAfter c key (Calc.new c key) pre).prev.isSome)
@@ -277,50 +357,266 @@ theorem swap_adjacent_detected (c : CryptoOps) (key : Bytes) (pre : List PItem) 
         Line.entry (entryAt c ((stateAfter c key (Calc.new c key) pre).step c a.data).1 b.data b.isEnd) ::
         Line.entry (entryAt c (stateAfter c key (Calc.new c key) pre) a.data a.isEnd) :: rest) =
       .fail pre.length .mismatch :=
-  delete_detected c key pre a b _ hres hmid hratchet hnc
+  delete_detected_mid c key pre a b _ hres hmid hratchet hnc
 
-/-- **A duplicated entry is detected at the copy** (copy placed right after the original, mid-chain). -/
+/-- **Exchanging two entries at ARBITRARY positions `i < j` of one chain is detected at position `i` or at
+the next entry after it.** History `pre ++ a :: mid ++ b :: …` with `a` (position `i = pre.length`), `mid`
+and `b` (position `j`) in one chain; in the altered log `b`'s line stands at `i` and `a`'s line at `j`
+(whatever follows is arbitrary). Hypotheses, all about the finitely many values at hand: the ratchet keys
+of positions `i`, `j` differ, and so do the keys one step on (`hk2`, only needed when there is an entry
+between them); no collision between `b`'s tag and what the verifier computes at `i`, nor between the tag
+of the entry after `a` and what the verifier computes at `i+1`.
+
+Excluded (`hexcl`): `j = i+1`, `i` is the first entry of a chain, the verifier's key there equals `b`'s
+key – for a ratchet that does not cycle this means that the chain before it has exactly ONE entry – and
+`b` is an end-of-chain entry. That is the known finding `single-entry-chain-replay`
+(`swap_after_single_entry_chain_counterexample`). -/
+theorem swap_detected (c : CryptoOps) (key : Bytes) (pre : List PItem) (a : PItem) (mid : List PItem) (b : PItem)
+    (rest : List Line)
+    (hres : ∀ it ∈ pre, it.resetAfter = true → it.isEnd = true)
+    (ha : a.resetAfter = false) (hmidc : ∀ m ∈ mid, m.resetAfter = false)
+    (hk1 : (pstate c key pre).key ≠ (pstate c key (pre ++ a :: mid)).key)
+    (hk2 : mid ≠ [] → c.sha256 (pstate c key pre).key ≠ c.sha256 (pstate c key (pre ++ a :: mid)).key)
+    (hnc1 : NoCollision c (vcal c key pre) b.data (pstate c key (pre ++ a :: mid)) b.data)
+    (hnc2 : ∀ m ∈ mid.head?, NoCollision c ((vcal c key pre).step c b.data).1 m.data
+      ((pstate c key pre).step c a.data).1 m.data)
+    (hexcl : mid = [] → (pstate c key pre).prev.isNone →
+      (vcal c key pre).key = (pstate c key (pre ++ a :: mid)).key → b.isEnd = false) :
+    ∃ k kind, verify c key (honestLines c key pre ++
+        Line.entry (entryAt c (pstate c key (pre ++ a :: mid)) b.data b.isEnd) ::
+        ((produce c key ((pstate c key pre).step c a.data).1 mid).map Line.entry ++
+          Line.entry (entryAt c (pstate c key pre) a.data a.isEnd) :: rest)) = .fail k kind ∧
+      pre.length ≤ k ∧ k ≤ pre.length + 1 := by
+  have hjs := pstate_chain_prev_some c key pre a mid ha hmidc
+  have hbnew : (entryAt c (pstate c key (pre ++ a :: mid)) b.data b.isEnd).isNew = false :=
+    entryAt_isNew_false c _ _ _ hjs
+  rw [verify_prefix_entry c key pre _ _ hres, entry_old c key _ _ hbnew]
+  by_cases ht : (entryAt c (pstate c key (pre ++ a :: mid)) b.data b.isEnd).tag =
+      tagOf c (vstate c key pre).cal (entryAt c (pstate c key (pre ++ a :: mid)) b.data b.isEnd).data
+  · -- accepted at `i`: the verifier's key there is `b`'s key
+    rw [if_pos ht]
+    have hkey : (vcal c key pre).key = (pstate c key (pre ++ a :: mid)).key := (hnc1.tag_inj ht.symm).1
+    rcases pstate_cases c key pre with hmid | hstart
+    · exact absurd (by rw [← vcal_of_mid c key pre hres hmid]; exact hkey) hk1
+    · refine ⟨pre.length + 1, ?_⟩
+      cases mid with
+      | nil =>
+        have hend := hexcl rfl (by rw [hstart]; rfl) hkey
+        have hanew : (entryAt c (pstate c key pre) a.data a.isEnd).isNew = true := by rw [hstart]; rfl
+        refine ⟨.missingEnd, ?_, by omega, by omega⟩
+        simp only [produce, List.map_nil, List.nil_append, verifyFrom]
+        rw [entry_new c key _ _ hanew]
+        simp [entryAt, hend]
+      | cons m mid' =>
+        refine ⟨.mismatch, ?_, by omega, by omega⟩
+        rw [produce_cons]
+        simp only [List.map_cons, List.cons_append, verifyFrom]
+        rw [entry_old_foreign c key _ ((pstate c key pre).step c a.data).1 m.data _ (by simp [entryAt, Calc.step]) rfl
+          (hnc2 m (by simp)) (Or.inl ?_)]
+        have := hk2 (by simp)
+        show c.sha256 (vcal c key pre).key ≠ c.sha256 (pstate c key pre).key
+        rw [hkey]; exact Ne.symm this
+  · rw [if_neg ht]
+    exact ⟨pre.length, .mismatch, rfl, by omega, by omega⟩
+
+/-- `swap_detected` when `i` is mid-chain or the first entry of the log: detection exactly at `i`, no
+exclusion (the verifier holds the producer's calculator there). -/
+theorem swap_detected_at_i (c : CryptoOps) (key : Bytes) (pre : List PItem) (a : PItem) (mid : List PItem) (b : PItem)
+    (rest : List Line)
+    (hres : ∀ it ∈ pre, it.resetAfter = true → it.isEnd = true)
+    (hpos : (pstate c key pre).prev.isSome ∨ pre = [])
+    (ha : a.resetAfter = false) (hmidc : ∀ m ∈ mid, m.resetAfter = false)
+    (hk1 : (pstate c key pre).key ≠ (pstate c key (pre ++ a :: mid)).key)
+    (hnc1 : NoCollision c (pstate c key pre) b.data (pstate c key (pre ++ a :: mid)) b.data) :
+    verify c key (honestLines c key pre ++
+        Line.entry (entryAt c (pstate c key (pre ++ a :: mid)) b.data b.isEnd) :: rest) = .fail pre.length .mismatch := by
+  have hv : vcal c key pre = pstate c key pre := by
+    rcases hpos with h | rfl
+    · exact vcal_of_mid c key pre hres h
+    · rfl
+  have hjs := pstate_chain_prev_some c key pre a mid ha hmidc
+  apply foreign_entry_detected_at c key pre _ rest (pstate c key (pre ++ a :: mid)) b.data hres
+  · exact entryAt_isNew_false c _ _ _ hjs
+  · rfl
+  · rw [hv]; exact hnc1
+  · left; rw [hv]; exact hk1
+
+/-- **Known finding `single-entry-chain-replay`, swap form: the position excluded from `swap_detected`.**
+History: a single-entry chain with content `d`; then a chain whose first entry has the same content `d`
+and whose second entry `b` is an end-of-chain entry. Exchanging these two entries is not detected. -/
+theorem swap_after_single_entry_chain_counterexample (c : CryptoOps) (key d db : Bytes) (ea : Bool) :
+    verify c key [.entry (entryAt c (Calc.new c key) d true),
+                  .entry (entryAt c ((Calc.new c key).step c d).1 db true),
+                  .entry (entryAt c (Calc.new c key) d ea)] = .ok := by
+  simp [verify, verifyFrom, VState.entry, VState.init, entryAt, Calc.new, Calc.step, tagOf, Calc.ic]
+
+/-- what `reorder_detected` assumes about the finitely many values at hand: for every position (after
+`x`) of the chain segment and every entry `b` standing later in it, the key the verifier holds at that
+position differs from the key `b`'s tag was made with, and there is no collision between `b`'s tag and
+what the verifier computes for `b`'s content at that position. (Inside a chain and at the start of the log
+the first part says that the ratchet does not return to an earlier key; at the first entry of a later
+chain it excludes that the previous chain has as many entries as lie before `b` in this one – for one
+entry that is the known finding `single-entry-chain-replay`, for more it is the replay of a complete
+chain, which the statement does not claim to detect.) -/
+def ReorderHyp (c : CryptoOps) (key : Bytes) (pre seg : List PItem) : Prop :=
+  ∀ (x : List PItem) (a : PItem) (z : List PItem) (b : PItem) (w : List PItem), seg = x ++ a :: (z ++ b :: w) →
+    (vcal c key (pre ++ x)).key ≠ (pstate c key (pre ++ x ++ a :: z)).key ∧
+    NoCollision c (vcal c key (pre ++ x)) b.data (pstate c key (pre ++ x ++ a :: z)) b.data
+
+/-- **Any reordering of the entries of a chain is detected at the first displaced entry.** `seg` is a
+run of entries of one chain after any honest history `pre`; `seg'` is an ARBITRARY permutation of its log
+lines other than the identity. Verification fails exactly at the first position where `seg'` differs from
+the honest order (so: no later than the first displaced entry's successor), whatever follows. -/
+theorem reorder_detected (c : CryptoOps) (key : Bytes) (pre seg : List PItem) (seg' : List Entry) (rest : List Line)
+    (hres : ∀ it ∈ pre, it.resetAfter = true → it.isEnd = true)
+    (hchain : ∀ m ∈ seg, m.resetAfter = false)
+    (hperm : seg'.Perm (produce c key (pstate c key pre) seg))
+    (hne : seg' ≠ produce c key (pstate c key pre) seg)
+    (hyp : ReorderHyp c key pre seg) :
+    ∃ (x : List PItem) (a : PItem) (y : List PItem) (e' : Entry) (r' : List Entry),
+      seg = x ++ a :: y ∧ seg' = produce c key (pstate c key pre) x ++ e' :: r' ∧
+      e' ≠ entryAt c (pstate c key (pre ++ x)) a.data a.isEnd ∧
+      verify c key (honestLines c key pre ++ seg'.map Line.entry ++ rest) = .fail (pre.length + x.length) .mismatch := by
+  obtain ⟨common, e, e', r, r', h1, h2, h3, h4⟩ := perm_first_diff _ _ hperm hne
+  obtain ⟨x, a, y, hs, hc, he, hr⟩ := produce_split c key common seg _ e r h1
+  rw [hr] at h4
+  obtain ⟨z, b, w, hy, hb⟩ := mem_produce c key y _ e' h4
+  have hax : a.resetAfter = false := hchain a (by rw [hs]; simp)
+  have hzc : ∀ m ∈ z, m.resetAfter = false := fun m hm => hchain m (by rw [hs, hy]; simp [hm])
+  have hst : stateAfter c key (nextCalc c key (stateAfter c key (pstate c key pre) x) a) z = pstate c key (pre ++ x ++ a :: z) := by
+    rw [pstate_append, pstate_append]; rfl
+  rw [hst] at hb
+  have hpx : stateAfter c key (pstate c key pre) x = pstate c key (pre ++ x) := (pstate_append c key pre x).symm
+  rw [hpx] at he
+  refine ⟨x, a, y, e', r', hs, by rw [h2, hc], by rw [← he]; exact h3, ?_⟩
+  obtain ⟨hk, hnc⟩ := hyp x a z b w (by rw [hs, hy])
+  have hresx : ∀ it ∈ pre ++ x, it.resetAfter = true → it.isEnd = true := by
+    intro it hit hra
+    rcases List.mem_append.mp hit with h | h
+    · exact hres it h hra
+    · have := hchain it (by rw [hs]; simp [h])
+      rw [this] at hra; cases hra
+  have hjs := pstate_chain_prev_some c key (pre ++ x) a z hax hzc
+  have hlog : honestLines c key pre ++ seg'.map Line.entry ++ rest =
+      honestLines c key (pre ++ x) ++ Line.entry e' :: (r'.map Line.entry ++ rest) := by
+    rw [h2, hc, honestLines_append]
+    simp [List.append_assoc]
+  rw [hlog, ← List.length_append]
+  apply foreign_entry_detected_at c key (pre ++ x) e' _ (pstate c key (pre ++ x ++ a :: z)) b.data hresx
+  · rw [hb]; exact entryAt_isNew_false c _ _ _ hjs
+  · rw [hb]; rfl
+  · rw [hb]; exact hnc
+  · left; exact hk
+
+/-- **The same for a WHOLE chain including its last entry**, after which the producer restarts: the log
+lines do not depend on the restart flag of the last item, so `reorder_detected` applies to the run with
+that flag cleared. The first displaced position is reported as an offset `n` into the chain. -/
+theorem reorder_chain_detected (c : CryptoOps) (key : Bytes) (pre init : List PItem) (l : PItem) (seg' : List Entry) (rest : List Line)
+    (hres : ∀ it ∈ pre, it.resetAfter = true → it.isEnd = true)
+    (hchain : ∀ m ∈ init, m.resetAfter = false)
+    (hperm : seg'.Perm (produce c key (pstate c key pre) (init ++ [l])))
+    (hne : seg' ≠ produce c key (pstate c key pre) (init ++ [l]))
+    (hyp : ReorderHyp c key pre (init ++ [{ l with resetAfter := false }])) :
+    ∃ n, n ≤ init.length ∧
+      verify c key (honestLines c key pre ++ seg'.map Line.entry ++ rest) = .fail (pre.length + n) .mismatch := by
+  have hprod : produce c key (pstate c key pre) (init ++ [l]) =
+      produce c key (pstate c key pre) (init ++ [{ l with resetAfter := false }]) := by
+    rw [produce_append, produce_append]
+    rfl
+  rw [hprod] at hperm hne
+  obtain ⟨x, a, y, e', r', hs, _, _, hv⟩ := reorder_detected c key pre (init ++ [{ l with resetAfter := false }]) seg' rest hres
+    (by
+      intro m hm
+      rcases List.mem_append.mp hm with h | h
+      · exact hchain m h
+      · simp at h; subst h; rfl)
+    hperm hne hyp
+  refine ⟨x.length, ?_, hv⟩
+  have := congrArg List.length hs
+  simp at this
+  omega
+/-- **A duplicated entry is detected at the copy, wherever the original stands inside or at the end of a
+chain** (copy placed right after the original, which is not the first entry of its chain; it may be the
+last one: the verifier keeps the calculator one step on until it sees `chain=new`). The first entry of a
+chain: `duplicate_chain_start_detected`. -/
 theorem duplicate_detected (c : CryptoOps) (key : Bytes) (pre : List PItem) (a : PItem) (rest : List Line)
     (hres : ∀ it ∈ pre ++ [a], it.resetAfter = true → it.isEnd = true)
     (hmid : (stateAfter c key (Calc.new c key) pre).prev.isSome)
-    (hnr : a.resetAfter = false)
     (hratchet : c.sha256 (stateAfter c key (Calc.new c key) pre).key ≠ (stateAfter c key (Calc.new c key) pre).key)
     (hnc : NoCollision c ((stateAfter c key (Calc.new c key) pre).step c a.data).1 a.data
       (stateAfter c key (Calc.new c key) pre) a.data) :
     verify c key ((produce c key (Calc.new c key) (pre ++ [a])).map Line.entry ++
         Line.entry (entryAt c (stateAfter c key (Calc.new c key) pre) a.data a.isEnd) :: rest) =
       .fail (pre.length + 1) .mismatch := by
-  have hst : ∀ (l : List PItem) (st : Calc), stateAfter c key st (l ++ [a]) = ((stateAfter c key st l).step c a.data).1 := by
-    intro l
-    induction l with
-    | nil => intro st; simp [stateAfter, hnr]
-    | cons x r ih => intro st; simp only [List.cons_append, stateAfter]; exact ih _
-  have := foreign_entry_detected c key (pre ++ [a]) (entryAt c (stateAfter c key (Calc.new c key) pre) a.data a.isEnd) rest
-    (stateAfter c key (Calc.new c key) pre) a.data hres (by rw [hst]; simp [Calc.step])
-    (by
-      cases h : (stateAfter c key (Calc.new c key) pre).prev with
-      | none => rw [h] at hmid; cases hmid
-      | some _ => simp [entryAt, h])
-    rfl (by rw [hst]; exact hnc) (by rw [hst]; left; simpa [Calc.step] using hratchet)
-  simpa using this
+  have := foreign_entry_detected_at c key (pre ++ [a]) (entryAt c (pstate c key pre) a.data a.isEnd) rest
+    (pstate c key pre) a.data hres
+    (entryAt_isNew_false c _ _ _ hmid)
+    rfl (by rw [vcal_snoc]; exact hnc) (by rw [vcal_snoc]; left; simpa [Calc.step, pstate] using hratchet)
+  simpa [honestLines, pstate] using this
+
+/-- **A copy of a mid-chain entry placed ANYWHERE later in the log is detected at the copy** (`mid`: the
+honest entries between the original and the copy, possibly across chain restarts), given that the key
+the verifier holds there is not the original's key. -/
+theorem duplicate_later_detected (c : CryptoOps) (key : Bytes) (pre : List PItem) (a : PItem) (mid : List PItem) (rest : List Line)
+    (hres : ∀ it ∈ pre ++ a :: mid, it.resetAfter = true → it.isEnd = true)
+    (hmid : (pstate c key pre).prev.isSome)
+    (hkey : (vcal c key (pre ++ a :: mid)).key ≠ (pstate c key pre).key)
+    (hnc : NoCollision c (vcal c key (pre ++ a :: mid)) a.data (pstate c key pre) a.data) :
+    verify c key (honestLines c key (pre ++ a :: mid) ++
+        Line.entry (entryAt c (pstate c key pre) a.data a.isEnd) :: rest) =
+      .fail (pre ++ a :: mid).length .mismatch := by
+  apply foreign_entry_detected_at c key (pre ++ a :: mid) _ rest (pstate c key pre) a.data hres
+  · exact entryAt_isNew_false c _ _ _ hmid
+  · rfl
+  · exact hnc
+  · left; exact hkey
 
 /-- **A copy of a chain's first entry placed right after it is detected** unless that entry is also
-the end of its chain: the verifier reports the missing end-of-chain. -/
+the end of its chain (`single_entry_chain_replay_counterexample`): the verifier reports the missing
+end-of-chain. More generally any line marked `chain=new` after an entry that is not an end-of-chain entry. -/
 theorem duplicate_chain_start_detected (c : CryptoOps) (key : Bytes) (pre : List PItem) (a : PItem) (rest : List Line)
     (e : Entry) (hres : ∀ it ∈ pre ++ [a], it.resetAfter = true → it.isEnd = true)
     (hnew : e.isNew = true) (hend : a.isEnd = false) :
     verify c key ((produce c key (Calc.new c key) (pre ++ [a])).map Line.entry ++ Line.entry e :: rest) =
-      .fail (pre.length + 1) .missingEnd := by
-  obtain ⟨_, hv⟩ := verifyFrom_honest_prefix c key (pre ++ [a]) (Calc.new c key) (VState.init c key) 0 (Line.entry e :: rest)
-    (inStep_init c key) hres
-  have hlast : ∀ (l : List PItem) (st : Calc) (vs : VState), (vsRun c key st vs (l ++ [a])).last = some a.isEnd := by
-    intro l
-    induction l with
-    | nil => intro st vs; simp [vsRun, vsAfter]
-    | cons x r ih => intro st vs; simp only [List.cons_append, vsRun]; exact ih _ _
-  unfold verify
-  rw [hv]
-  simp [verifyFrom, VState.entry, hnew, hlast, hend]
+      .fail (pre.length + 1) .missingEnd :=
+  delete_chain_end_detected c key pre a rest e hres hnew hend
+
+/-- **A copy of a chain's first entry placed ANYWHERE later in the log is detected no later than the
+next protected entry after the copy**, whenever such an entry exists and is the first of a chain (the
+copy stands at a chain boundary; elsewhere it fails at once with the missing end-of-chain) – unless the
+copied entry is also the end of its chain. `all` is the honest history before the copy, `a` the copied
+first entry of some chain, `n` the next entry. -/
+theorem chain_start_replay_detected_by_next_entry (c : CryptoOps) (key : Bytes) (all : List PItem) (a : PItem)
+    (n : Entry) (rest : List Line)
+    (hres : ∀ it ∈ all, it.resetAfter = true → it.isEnd = true)
+    (hn : n.isNew = true) (hend : a.isEnd = false) :
+    ∃ k kind, verify c key (honestLines c key all ++
+        Line.entry (entryAt c (Calc.new c key) a.data a.isEnd) :: Line.entry n :: rest) = .fail k kind ∧
+      all.length ≤ k ∧ k ≤ all.length + 1 := by
+  rw [verify_prefix_entry c key all _ _ hres]
+  cases he : (vstate c key all).entry c key (entryAt c (Calc.new c key) a.data a.isEnd) with
+  | error k => exact ⟨all.length, k, rfl, by omega, by omega⟩
+  | ok st' =>
+    have hlast : st'.last = some false := by
+      rw [entry_new c key _ _ (by rfl)] at he
+      split at he
+      · cases he
+      · split at he
+        · cases he; simp [entryAt, hend]
+        · cases he
+    refine ⟨all.length + 1, .missingEnd, ?_, by omega, by omega⟩
+    simp only [verifyFrom]
+    rw [entry_new c key _ n hn, if_pos hlast]
+
+/-- **Known finding `chain-start-replay-at-end-of-log`: the position excluded from the theorem above.**
+A copy of the first entry of any chain of the log, appended after an end-of-chain entry at the very end of
+the log, is accepted: it is a valid one-entry prefix of a new chain, and truncation is allowed. For every
+key, every crypto instance and every honest history whose last entry is an end-of-chain entry. -/
+theorem chain_start_replay_at_end_of_log_counterexample (c : CryptoOps) (key : Bytes) (all : List PItem) (z a : PItem)
+    (hres : ∀ it ∈ all ++ [z], it.resetAfter = true → it.isEnd = true) (hz : z.isEnd = true) :
+    verify c key (honestLines c key (all ++ [z]) ++ [Line.entry (entryAt c (Calc.new c key) a.data a.isEnd)]) = .ok := by
+  rw [verify_prefix_entry c key (all ++ [z]) _ _ hres, entry_new c key _ _ (by rfl), vlast_snoc, hz]
+  simp [entryAt, verifyFrom]
 
 /-- **Verification with another key fails at the first protected entry** (no collision between the two
 hashed keys on that entry). -/
@@ -370,9 +666,138 @@ entry, with the toy instance -/
 example : verify toyOps [1] ((produce toyOps [1] (Calc.new toyOps [1]) [⟨[10], false, false⟩, ⟨[11], false, false⟩]).map Line.entry ++
     Line.entry { entryAt toyOps (stateAfter toyOps [1] (Calc.new toyOps [1]) [⟨[10], false, false⟩, ⟨[11], false, false⟩]) [12] false with data := [13] } :: []) =
     .fail 2 .mismatch :=
-  edit_detected toyOps [1] [⟨[10], false, false⟩, ⟨[11], false, false⟩] ⟨[12], false, false⟩ [13] []
-    (by intro it h; simp at h; rcases h with rfl | rfl <;> simp) (by simp [stateAfter, Calc.step])
+  edit_detected toyOps [1] [⟨[10], false, false⟩, ⟨[11], false, false⟩] ⟨[12], false, false⟩ [13] false []
+    (by intro it h; simp at h; rcases h with rfl | rfl <;> simp)
     (by decide) (toy_noCollision _ _ _ _)
+
+/-! ### non-vacuity of the every-position theorems -/
+
+/-- a history with a restart: a chain of two entries (the second one its end-of-chain entry), then the
+first entries of the next chain -/
+def hist2 : List PItem := [⟨[10], false, false⟩, ⟨[11], true, true⟩]
+
+theorem hist2_res : ∀ it ∈ hist2, it.resetAfter = true → it.isEnd = true := by
+  intro it h; simp [hist2] at h; rcases h with rfl | rfl <;> simp
+
+/-- `swap_detected` at the FIRST entry of a later chain, non-adjacent positions (`i` = 2, `j` = 4) -/
+example : ∃ k kind, verify toyOps [1] (honestLines toyOps [1] hist2 ++
+      Line.entry (entryAt toyOps (pstate toyOps [1] (hist2 ++ ⟨[12], false, false⟩ :: [⟨[13], false, false⟩])) [14] false) ::
+      ((produce toyOps [1] ((pstate toyOps [1] hist2).step toyOps [12]).1 [⟨[13], false, false⟩]).map Line.entry ++
+        Line.entry (entryAt toyOps (pstate toyOps [1] hist2) [12] false) :: [])) = .fail k kind ∧ 2 ≤ k ∧ k ≤ 3 :=
+  swap_detected toyOps [1] hist2 ⟨[12], false, false⟩ [⟨[13], false, false⟩] ⟨[14], false, false⟩ [] hist2_res rfl
+    (by intro m h; simp at h; subst h; rfl) (by decide) (by intro _; decide) (toy_noCollision _ _ _ _)
+    (fun _ _ => toy_noCollision _ _ _ _) (by intro h; cases h)
+
+/-- `swap_detected`, adjacent positions at the first entry of a later chain, the second entry being an
+end-of-chain entry: the exclusion `hexcl` does not bite because the chain before has two entries -/
+example : ∃ k kind, verify toyOps [1] (honestLines toyOps [1] hist2 ++
+      Line.entry (entryAt toyOps (pstate toyOps [1] (hist2 ++ ⟨[12], false, false⟩ :: [])) [14] true) ::
+      ((produce toyOps [1] ((pstate toyOps [1] hist2).step toyOps [12]).1 []).map Line.entry ++
+        Line.entry (entryAt toyOps (pstate toyOps [1] hist2) [12] false) :: [])) = .fail k kind ∧ 2 ≤ k ∧ k ≤ 3 :=
+  swap_detected toyOps [1] hist2 ⟨[12], false, false⟩ [] ⟨[14], true, true⟩ [] hist2_res rfl
+    (by intro m h; cases h) (by decide) (by intro h; exact absurd rfl h) (toy_noCollision _ _ _ _)
+    (fun _ h => by cases h) (by intro _ _ h; exact absurd h (by decide))
+
+/-- `delete_detected` at the first entry of a later chain (the chain before has two entries) and at the
+first entry of the log -/
+example : verify toyOps [1] (honestLines toyOps [1] hist2 ++
+    Line.entry (entryAt toyOps ((pstate toyOps [1] hist2).step toyOps [12]).1 [13] false) :: []) = .fail 2 .mismatch :=
+  delete_detected toyOps [1] hist2 ⟨[12], false, false⟩ ⟨[13], false, false⟩ [] hist2_res (by decide) (toy_noCollision _ _ _ _)
+
+example : verify toyOps [1] (Line.entry (entryAt toyOps ((Calc.new toyOps [1]).step toyOps [12]).1 [13] false) :: []) = .fail 0 .mismatch :=
+  delete_first_of_log_detected toyOps [1] ⟨[12], false, false⟩ ⟨[13], false, false⟩ [] (by decide) (toy_noCollision _ _ _ _)
+
+/-- `edit_detected` at the first entry of a later chain (the edit also flips the end-of-chain marker) -/
+example : verify toyOps [1] (honestLines toyOps [1] hist2 ++
+    Line.entry { entryAt toyOps (pstate toyOps [1] hist2) [12] true with data := [13] } :: []) = .fail 2 .mismatch :=
+  edit_detected toyOps [1] hist2 ⟨[12], false, false⟩ [13] true [] hist2_res (by decide) (toy_noCollision _ _ _ _)
+
+/-- `duplicate_detected` for the LAST entry of a chain (the copy stands between two chains) -/
+example : verify toyOps [1] ((produce toyOps [1] (Calc.new toyOps [1]) ([⟨[10], false, false⟩] ++ [⟨[11], true, true⟩])).map Line.entry ++
+    Line.entry (entryAt toyOps (stateAfter toyOps [1] (Calc.new toyOps [1]) [⟨[10], false, false⟩]) [11] true) :: []) = .fail 2 .mismatch :=
+  duplicate_detected toyOps [1] [⟨[10], false, false⟩] ⟨[11], true, true⟩ [] hist2_res (by decide) (by decide) (toy_noCollision _ _ _ _)
+
+/-- under the toy instance (injective hashes, a ratchet that lengthens the key at every step) the
+hypotheses of `reorder_detected` hold for EVERY chain segment that starts mid-chain or at the start of
+the log -/
+theorem toy_reorderHyp (key : Bytes) (pre seg : List PItem)
+    (hres : ∀ it ∈ pre, it.resetAfter = true → it.isEnd = true)
+    (hchain : ∀ m ∈ seg, m.resetAfter = false)
+    (hpos : (pstate toyOps key pre).prev.isSome ∨ pre = []) : ReorderHyp toyOps key pre seg := by
+  intro x a z b w hs
+  refine ⟨?_, toy_noCollision _ _ _ _⟩
+  have hx : ∀ m ∈ x, m.resetAfter = false := fun m hm => hchain m (by rw [hs]; simp [hm])
+  have ha : a.resetAfter = false := hchain a (by rw [hs]; simp)
+  have hz : ∀ m ∈ z, m.resetAfter = false := fun m hm => hchain m (by rw [hs]; simp [hm])
+  have hresx : ∀ it ∈ pre ++ x, it.resetAfter = true → it.isEnd = true := by
+    intro it hit hra
+    rcases List.mem_append.mp hit with h | h
+    · exact hres it h hra
+    · rw [hx it h] at hra; cases hra
+  have hv : vcal toyOps key (pre ++ x) = pstate toyOps key (pre ++ x) := by
+    cases x with
+    | nil =>
+      rw [List.append_nil]
+      rcases hpos with h | rfl
+      · exact vcal_of_mid toyOps key pre hres h
+      · rfl
+    | cons x0 x' =>
+      exact vcal_of_mid toyOps key _ hresx
+        (pstate_chain_prev_some toyOps key pre x0 x' (hx x0 (by simp)) (fun m hm => hx m (by simp [hm])))
+  have hlen : ∀ (l : List PItem) (st : Calc), (∀ m ∈ l, m.resetAfter = false) →
+      (stateAfter toyOps key st l).key.length = st.key.length + l.length := by
+    intro l
+    induction l with
+    | nil => intro st _; rfl
+    | cons m r ih =>
+      intro st hm
+      simp only [stateAfter, hm m List.mem_cons_self, Bool.false_eq_true, if_false]
+      rw [ih _ (fun y hy => hm y (List.mem_cons_of_mem _ hy))]
+      simp [Calc.step, toyOps]
+      omega
+  rw [hv, pstate_append toyOps key (pre ++ x) (a :: z)]
+  intro h
+  have := congrArg List.length h
+  rw [hlen (a :: z) _ (by intro m hm; rcases List.mem_cons.mp hm with rfl | hm; exact ha; exact hz m hm)] at this
+  simp at this
+
+/-- `reorder_detected` on a concrete rotation of three mid-chain entries (`e0 e1 e2 ↦ e1 e2 e0`) -/
+example : ∃ n, verify toyOps [1] (honestLines toyOps [1] [⟨[10], false, false⟩] ++
+      [entryAt toyOps ((pstate toyOps [1] [⟨[10], false, false⟩]).step toyOps [12]).1 [13] false,
+       entryAt toyOps ((((pstate toyOps [1] [⟨[10], false, false⟩]).step toyOps [12]).1).step toyOps [13]).1 [14] false,
+       entryAt toyOps (pstate toyOps [1] [⟨[10], false, false⟩]) [12] false].map Line.entry ++ []) = .fail n .mismatch := by
+  obtain ⟨x, a, y, e', r', _, _, _, h⟩ :=
+    reorder_detected toyOps [1] [⟨[10], false, false⟩] [⟨[12], false, false⟩, ⟨[13], false, false⟩, ⟨[14], false, false⟩]
+      [entryAt toyOps ((pstate toyOps [1] [⟨[10], false, false⟩]).step toyOps [12]).1 [13] false,
+       entryAt toyOps ((((pstate toyOps [1] [⟨[10], false, false⟩]).step toyOps [12]).1).step toyOps [13]).1 [14] false,
+       entryAt toyOps (pstate toyOps [1] [⟨[10], false, false⟩]) [12] false] []
+      (by intro it h; simp at h; subst h; simp)
+      (by intro m h; simp at h; rcases h with rfl | rfl | rfl <;> rfl)
+      (((List.Perm.swap _ _ []).cons _).trans (List.Perm.swap _ _ [_]))
+      (by
+        intro h
+        have := congrArg (fun l => l.head?.map (·.data)) h
+        simp [produce_cons, entryAt] at this)
+      (toy_reorderHyp [1] _ _ (by intro it h; simp at h; subst h; simp)
+        (by intro m h; simp at h; rcases h with rfl | rfl | rfl <;> rfl) (Or.inl (by decide)))
+  exact ⟨_, h⟩
+
+/-- `reorder_chain_detected` on the whole FIRST chain of a log, exchanging its last two entries (the last
+one is the end-of-chain entry after which the producer restarts) -/
+example : ∃ n, n ≤ 2 ∧ verify toyOps [1] (honestLines toyOps [1] [] ++
+      [entryAt toyOps (Calc.new toyOps [1]) [12] false,
+       entryAt toyOps ((((Calc.new toyOps [1]).step toyOps [12]).1).step toyOps [13]).1 [14] true,
+       entryAt toyOps ((Calc.new toyOps [1]).step toyOps [12]).1 [13] false].map Line.entry ++ []) = .fail (0 + n) .mismatch :=
+  reorder_chain_detected toyOps [1] [] [⟨[12], false, false⟩, ⟨[13], false, false⟩] ⟨[14], true, true⟩ _ []
+    (by intro it h; cases h)
+    (by intro m h; simp at h; rcases h with rfl | rfl <;> rfl)
+    ((List.Perm.swap _ _ []).cons _)
+    (by
+      intro h
+      have := congrArg (fun l => l[1]?.map (·.data)) h
+      simp [produce_cons, entryAt] at this)
+    (toy_reorderHyp [1] _ _ (by intro it h; cases h)
+      (by intro m h; simp at h; rcases h with rfl | rfl | rfl <;> rfl) (Or.inr rfl))
 
 /-- the ratchet hypothesis holds for the toy instance -/
 example (k : Bytes) : toyOps.sha256 k ≠ k := by
